@@ -5,9 +5,11 @@ package interp
 import (
 	"fmt"
 	"go/types"
+	"os"
 	"sort"
 	"strconv"
 	"strings"
+	"time"
 )
 
 type NondetVar struct {
@@ -118,6 +120,7 @@ type pathCtx struct {
 	defCache   map[string]string
 	decided    map[string]bool
 	feasMs     int
+	latticeFirst bool
 	sqrtCache  map[string]string
 	intOrig    map[string]intOrigin
 	numTokens  []numToken
@@ -143,7 +146,7 @@ func (pc *pathCtx) def(sort, expr string) string {
 	if pc.defCache == nil {
 		pc.defCache = map[string]string{}
 	}
-	if n, ok := pc.defCache[expr]; ok {
+	if n, ok := pc.defCache[expr]; ok && os.Getenv("GOSYM_NOHASHCONS") == "" {
 		return n
 	}
 	n := pc.fresh_("t")
@@ -473,15 +476,43 @@ func (pc *pathCtx) tryViolation(kind, id, msg, pos, extra string) string {
 	if extra != "" {
 		pc.solver.Send("(assert " + extra + ")")
 	}
-	// plain check first; for a sat answer with real inputs, try to find a small dyadic model
-	// (exactly representable, so that the native float run follows the same path)
-	r := pc.solver.Check()
+	if os.Getenv("GOSYM_SLOW") != "" {
+		t0 := time.Now()
+		defer func() {
+			if d := time.Since(t0); d > 3*time.Second {
+				fmt.Fprintf(os.Stderr, "SLOW obligation %s %s: %.1fs\n", kind, id, d.Seconds())
+			}
+		}()
+	}
 	reals := []string{}
 	for _, n := range pc.nondets {
 		if n.Sort == "real" {
 			reals = append(reals, n.Term)
 		}
 	}
+	if pc.latticeFirst && len(reals) > 0 {
+		// NRA obligations: the query restricted to a dyadic lattice first (empirically it is decided
+		// fast and primes the solver for the unrestricted query that follows; a sat answer gives an
+		// exactly representable model)
+		pc.solver.Push()
+		for i, t := range reals {
+			k := fmt.Sprintf("lat!%d", i)
+			pc.solver.Send("(declare-const " + k + " Int)")
+			pc.solver.Send(fmt.Sprintf("(assert (= (* 64.0 %s) (to_real %s)))", t, k))
+			pc.solver.Send(fmt.Sprintf("(assert (and (<= (- 65536) %s) (<= %s 65536)))", k, k))
+		}
+		r0 := pc.solver.Check()
+		if r0 == "sat" {
+			v := Violation{Kind: kind, ID: id, Msg: msg, Pos: pos, Model: pc.model(), Nondets: append([]NondetVar{}, pc.nondets...), Prefix: append([]int64{}, pc.taken...)}
+			pc.viol = append(pc.viol, v)
+			pc.solver.Pop()
+			return "sat"
+		}
+		pc.solver.Pop()
+	}
+	// plain check; for a sat answer with real inputs, try to find a small dyadic model
+	// (exactly representable, so that the native float run follows the same path)
+	r := pc.solver.Check()
 	if r == "sat" && len(reals) > 0 {
 		plain := Violation{Kind: kind, ID: id, Msg: msg, Pos: pos, Model: pc.model(), Nondets: append([]NondetVar{}, pc.nondets...), Prefix: append([]int64{}, pc.taken...)}
 		full := pc.solver.TimeoutMs
